@@ -198,6 +198,13 @@ def table_form_cases(rep):
             wi = sorted('%s:%s=%s' % (s_, k, v) for s_, e in ed for k, v in e); gi = sorted(l for l in so.split('\n') if l.strip())
             if gi != wi: rep.dev('table-form-' + nm, dict(kind='table-form', name=nm, route='list-items'), 'listing of the edited file misses %r, extra %r' % ([x for x in wi if x not in gi][:3], [x for x in gi if x not in wi][:3]), 'every item once')
             else: rep.ok()
+    # a section named exactly [Table-Form] (no name): not interpreted by anything, but its items are items of the file
+    rep.case('table-form', 'bare-section')
+    secs2 = [('Tabulation', tabl), ('Pair', [('Al-O', 'as.polynomial 1.0 2.0')]), ('Table-Form', [('foo', 'bar')]), ('Species', [('Al.charge', '3')])]
+    code, so, se, _ = potable(['--list-items'], render([], secs2), want_out=False)
+    wi = sorted('%s:%s=%s' % (s_, k, v) for s_, e in secs2 for k, v in e); gi = sorted(l for l in so.split('\n') if l.strip())
+    if gi != wi: rep.dev('table-form-bare-section', dict(kind='table-form', name='bare-section'), 'listing misses %r, extra %r' % ([x for x in wi if x not in gi][:3], [x for x in gi if x not in wi][:3]), 'every item of the file once')
+    else: rep.ok()
     # an item of a missing table-form section is rejected as a configuration error
     rep.case('table-form', 'override-missing')
     code, so, se, got = potable(['--override-item', 'Table-Form:nope:x=1 2 3'], text)
